@@ -5,6 +5,9 @@ props=[json.loads(l) for l in open('/verif/properties.jsonl')]
 E1="stateless DFS over bitstream answers on the implementation (bounded exhaustive)"
 E2="stateless DFS over property-function behaviours through the public Check (bounded exhaustive)"
 T={
+ "C01":("lazyprop",E2+", cut-point enumeration on a virtual clock, replay oracles","11 base programs x behaviour deviations x checks x nofailfile x seeds; every failing run is repeated with minimization cut after every j-th shrink-phase invocation. The presented case must signal the failure the message names, logged draws = received draws, fail-file words replay to the same case through the buffer stream and MakeFuzz; never flaky; no failure without a falsified case.","Trusted: effectiveSignal (which failure of an invocation wins) mirrors Go panic/defer semantics; cut points at invocation granularity.","DESIGN.md 3.3, 4 C01"),
+ "C05":("lazyprop",E2+", deviations on minimization candidates, r5 buffer observer, cut points","Multi-site programs with behaviour deviations placed on minimization candidates; oracle on the observed sequence of candidate buffers: same site, strictly decreasing accepted steps below the pruned original, every cut result is a state of the uncut run.","Trusted: site = (context, kind) of the effective fatal signal; r5 observer reports every buffer handed to newBufBitStream.","DESIGN.md 3.3, 4 C05"),
+ "C07":("lazyprop",E2+", two-run differential (printed seed, rerun)","Base seeds (incl. near 2^64) x checks x every index of the first falsified case with skipped cases before it; the printed seed must make the first test case draw the failing case's values and fail after 0 tests; runs repeated and compared in test cases, report and fail file.","Trusted: virtual clock for deterministic reports; comment timestamps masked as the statement allows.","DESIGN.md 3.3, 4 C07"),
  "C02":("lazyprop",E2+", iff-oracle on the invocation log","Every failure kind x callback context x position of the falsifying case is enumerated (one deviation quick, two thorough, from all-pass and all-skip base runs) through the public Check on a fake TB; oracle: TB failed iff some executed test case signalled. A coverage statement over the whole matrix, which the suite samples at one cell per test.","Trusted: the behaviour alphabet (19 failure kinds) and 5 contexts in harness/lazyprop.go, progs_lazy.go; fake TB faithfully models testing.T for Failed/FailNow.","DESIGN.md 3.3, 4 C02"),
  "C03":("bitdfs",E1+", independent contract predicates","Every public constructor with extreme parameters is driven by every answer sequence within the stated depth/deviation bounds around the all-zero and all-ones streams (overrun at every position), plus PRNG seeds and truncated word patterns through the real buffer stream; oracle: independent contract predicate, outcome value-or-invalid, hang watchdog.","Trusted: per-width answer alphabet; catalogue in harness/catalog.go; contract predicates written from the documentation.","DESIGN.md 3.2, 4 C03"),
  "C04":("bitdfs",E1+", differential replay oracle","Stateless exhaustive DFS over drawBits answers (per-width boundary alphabet, depth and deviation bounds stated in the evidence) on the real generators and state machine; every execution is replayed as recorded and after prune() through the real buffer stream and must give identical draws and verdict. Coverage statement, not a sample.","Trusted: the per-width answer alphabet (boundary words, not all 2^64), the catalogue of generator expressions, Go's fmt/reflect for rendering draws.","DESIGN.md 3.2, 4 C04"),
